@@ -522,6 +522,7 @@ class Typestate:
                     break
                 for mi in self.methods.get(S, []):
                     self.step(S, val, mi)
+            self.I.deadline = None
             return self
         import multiprocessing as mp
         ctx = mp.get_context("fork")
@@ -559,9 +560,13 @@ class Typestate:
                 self.I.visited_blocks |= r["visited"]
                 self.I.assumed_sites |= r["assumed"]
         self.rounds = rounds
+        self.I.deadline = None
         return self
 
     def step(self, S, val, mi):
+        import time as _t
+        self.I.deadline = _t.time() + 240      # one (state, valuation, method) step; beyond that the tree is reported incomplete
+
         def init(st):
             materialize(st, val)
             for i, ty in enumerate(mi.inputs[1:], start=1):
